@@ -181,6 +181,28 @@ def _elem(i, version):
     return c
 
 
+def _elem_sv(kind, i, version):
+    """element i of a surface / volume container after `version` in-place edits (translations by (1, 1, 1))"""
+    from geomdl import BSpline, NURBS, operations
+    if kind == "surface":
+        s = (NURBS.Surface if i % 2 == 0 else BSpline.Surface)()
+        s.degree_u, s.degree_v = 2, 1
+        pts = [[float(a + i), float(b), float((a * a + b + i) % 3)] for a in range(3) for b in range(2)]
+        if i % 2 == 0:
+            s.set_ctrlpts([[p[0] * w, p[1] * w, p[2] * w, w] for p, w in zip(pts, [1.0, 2.0, 0.5, 1.0, 3.0, 1.0])], 3, 2)
+        else:
+            s.set_ctrlpts(pts, 3, 2)
+        s.knotvector_u, s.knotvector_v = [0, 0, 0, 1, 1, 1], [0, 0, 1, 1]
+    else:
+        s = BSpline.Volume()
+        s.degree_u, s.degree_v, s.degree_w = 1, 1, 1
+        s.set_ctrlpts([[float(a + i), float(b), float(c + (a * b) % 2)] for c in range(2) for a in range(2) for b in range(2)], 2, 2, 2)
+        s.knotvector_u = s.knotvector_v = s.knotvector_w = [0, 0, 1, 1]
+    for _ in range(version):
+        operations.translate(s, [1.0, 1.0, 1.0], inplace=True)
+    return s
+
+
 def check_container(ctx, cs):
     from geomdl import multi, operations
     ctx.full = cs
@@ -189,40 +211,49 @@ def check_container(ctx, cs):
     if last["a"] == "c_read":
         return False
     reads_before = sorted({s["v"] for s in hist[:-1] if s["a"] == "c_read"})
-    tg = ["container", "mutator=" + last["a"]] + ["read_before=" + v for v in reads_before]
-    small = {"hist": hist}
-    site = "multi.CurveContainer"
-    ctx.count(("container", hkey(hist)), sample=small)
-    try:
-        cont = multi.CurveContainer()
-        cont.sample_size = 5
-        cont.add(_elem(0, 0))
-        n = 1
-        for st in hist:
-            if st["a"] == "c_read":
-                _ = list(cont.evalpts) if st["v"] == "evalpts" else cont.bbox
-            elif st["a"] == "c_add":
-                cont.add(_elem(n, 0))
-                n += 1
-            elif st["a"] == "c_edit":
-                operations.translate(cont[st["i"] - 1], [1.0, 1.0], inplace=True)
-            elif st["a"] == "c_sample":
-                cont.sample_size = st["n"]
-        fresh = multi.CurveContainer()
-        fresh.sample_size = 5
-        for st in hist:
-            if st["a"] == "c_sample":
-                fresh.sample_size = st["n"]
-        for i, v in enumerate(cs["ver"]):
-            fresh.add(_elem(i, v))
-        for view in ("evalpts", "bbox"):
-            a = [list(p) for p in cont.evalpts] if view == "evalpts" else [list(x) for x in cont.bbox]
-            b = [list(p) for p in fresh.evalpts] if view == "evalpts" else [list(x) for x in fresh.bbox]
-            if not close_seq(a, b, 1e-9):
-                ctx.violate(site + "." + view, tg + ["view=" + view], small, {"view": view, "container_reports": str(a)[:200], "fresh_reports": str(b)[:200]})
-                break
-    except Exception as e:
-        ctx.violate(site, tg + ["raises"], small, {"exception": repr(e)[:300]})
+    maxd = max([s["d"] for s in hist if s["a"] == "c_sample_dir"] + [1])
+    for kind, pdim, Cont in (("curve", 1, multi.CurveContainer), ("surface", 2, multi.SurfaceContainer), ("volume", 3, multi.VolumeContainer)):
+        if maxd > pdim or (pdim > 1 and len(hist) > 3 and ctx.tier == "quick" and maxd == 1 and not any(s["a"] == "c_sample_dir" for s in hist)):
+            continue
+        mk = (lambda i, v: _elem(i, v)) if pdim == 1 else (lambda i, v, kind=kind: _elem_sv(kind, i, v))
+        tg = ["container", "kind=" + kind, "mutator=" + last["a"]] + ["read_before=" + v for v in reads_before]
+        small = {"kind": kind, "hist": hist}
+        # the aggregate views are implemented once, in the common base class of the three containers
+        site = "multi.AbstractContainer"
+        ctx.count(("container", kind, hkey(hist)), sample=small)
+        try:
+            cont = Cont()
+            cont.sample_size = 5
+            cont.add(mk(0, 0))
+            n = 1
+            for st in hist:
+                if st["a"] == "c_read":
+                    _ = list(cont.evalpts) if st["v"] == "evalpts" else cont.bbox
+                elif st["a"] == "c_add":
+                    cont.add(mk(n, 0))
+                    n += 1
+                elif st["a"] == "c_edit":
+                    operations.translate(cont[st["i"] - 1], [1.0] * (2 if pdim == 1 else 3), inplace=True)
+                elif st["a"] == "c_sample":
+                    cont.sample_size = st["n"]
+                elif st["a"] == "c_sample_dir":
+                    if pdim == 1:
+                        cont.sample_size = st["n"]
+                    else:
+                        setattr(cont, "sample_size_" + "uvw"[st["d"] - 1], st["n"])
+            fresh = Cont()
+            fresh.sample_size = cs["samp"][0] if pdim == 1 else list(cs["samp"][:pdim])
+            for i, v in enumerate(cs["ver"]):
+                fresh.add(mk(i, v))
+            for view in ("evalpts", "bbox"):
+                a = [list(p) for p in cont.evalpts] if view == "evalpts" else [list(x) for x in cont.bbox]
+                b = [list(p) for p in fresh.evalpts] if view == "evalpts" else [list(x) for x in fresh.bbox]
+                if not close_seq(a, b, 1e-9):
+                    ctx.violate(site + "." + view, tg + ["view=" + view], small, {"view": view, "n_container": len(a), "n_fresh": len(b),
+                                                                                   "container_reports": str(a)[:160], "fresh_reports": str(b)[:160]})
+                    break
+        except Exception as e:
+            ctx.violate(site, tg + ["raises"], small, {"exception": repr(e)[:300]})
     return True
 
 
